@@ -21,7 +21,8 @@ static int fail(const std::string& what) { std::printf("{\"capacity\": %d, \"his
 static int same(FSM::Instance& m, const std::vector<T>& v) {
 	const FSM::Instance& cm = m;
 	size_t n = 0;
-	for (auto it = cm.plan().begin(); it; ++it, ++n) {
+	auto cplan = cm.plan();            // iterators refer to the plan object they come from: it has to outlive them
+	for (auto it = cplan.begin(); it; ++it, ++n) {
 		if (n >= v.size()) return fail("iteration yields more tasks than were appended and not removed");
 		if (it->origin != v[n].o || it->destination != v[n].d) return fail("task " + std::to_string(n) + " is " + std::to_string(it->origin) + ">" + std::to_string(it->destination) + ", expected " + std::to_string(v[n].o) + ">" + std::to_string(v[n].d));
 		if ((it->payload() != nullptr) != v[n].has || (v[n].has && *it->payload() != v[n].p)) return fail("payload of task " + std::to_string(n) + " differs");
